@@ -204,4 +204,36 @@ theorem mem_directOrder_auto (q : Path) (l : List Path) (hq : q ∈ l) : q ∈ d
   | control => exact Or.inr (Or.inl ⟨hq, by simp [hk]⟩)
   | fallback => exact Or.inr (Or.inr ⟨hq, by simp [hk]⟩)
 
+/-! ### manifest state -/
+
+theorem effResp_neutral (m : MState) (h : Bytes) (k : Kind) (r : Resp) :
+    effResp m k (neutral sha h r) = neutral sha h (effResp m k r) := by
+  unfold effResp
+  by_cases hk : isTransportKind k = true
+  · simp only [hk, if_true]
+    by_cases hp : (m.publisher && !m.expired) = true
+    · simp only [hp, if_true]
+      cases r with
+      | payload c =>
+        simp only [neutral]
+        by_cases hc : sha c = h
+        · simp only [hc, if_true]
+          by_cases hko : m.keyOk = true
+          · simp [hko, neutral, hc]
+          · simp [hko, neutral]
+        · simp only [hc, if_false]
+          by_cases hko : m.keyOk = true
+          · simp [hko, neutral, hc]
+          · simp [hko, neutral]
+      | okNoPayload => rfl
+      | down => rfl
+      | fail => rfl
+    · simp only [hp, Bool.false_eq_true, if_false]; rfl
+  · simp only [hk, Bool.false_eq_true, if_false]
+
+theorem view_neutral (m : MState) (h : Bytes) (p : Path) :
+    view m (neutralPath sha h p) = neutralPath sha h (view m p) := by
+  unfold view neutralPath
+  simp only [effResp_neutral]
+
 end EphVerif.C30L
